@@ -976,7 +976,17 @@ class _GenerateRenderMethod:
             self.printer.writeline(call % ("%s()" % node.funcname))
         else:
             nameargs = node.get_argument_expressions(as_call=True)
-            nameargs += ["**pageargs"]
+            pagetag = self.compiler.pagetag
+            if (
+                not self.in_def
+                and pagetag is not None
+                and pagetag.body_decl.kwargs
+            ):
+                # the page signature has a ** catch-all of its own, which
+                # stands where **pageargs would
+                nameargs += ["**" + pagetag.body_decl.kwargnames[-1]]
+            else:
+                nameargs += ["**pageargs"]
             self.printer.writeline(
                 "if 'parent' not in context._data or "
                 "not hasattr(context._data['parent'], '%s'):" % node.funcname
